@@ -10,8 +10,60 @@ use std::io::Write;
 
 pub const HOSTILE_DEVICE: &str = "a\"b\\c\n(日) ;#|";
 
+/// CPU time one input (at most 4 KiB) may use before it is reported as a failure to terminate.
+/// Inputs of the corpus take microseconds to a few milliseconds (the slowest, in the dev build,
+/// stays below 0.2 s: `max_input_cpu_s` in the evidence); the limit is CPU time of the process,
+/// not wall-clock time, so a busy machine does not trip it.
+pub const CPU_LIMIT_SECS: f64 = 20.0;
+
+/// the input being exercised right now (read by the worker's monitor thread)
+static CURRENT: std::sync::Mutex<(u64, String)> = std::sync::Mutex::new((0, String::new()));
+
+fn note_current(input: &str) {
+    if let Ok(mut c) = CURRENT.lock() {
+        c.0 += 1;
+        c.1.clear();
+        c.1.push_str(input);
+    }
+}
+
+/// Watches the calling process: when one input has used more than the CPU limit, writes it to
+/// `hang_file` and ends the process with status 3.
+pub fn spawn_monitor(hang_file: String) {
+    std::thread::spawn(move || {
+        let mut last = 0u64;
+        let mut cpu0 = process_cpu_secs().unwrap_or(0.0);
+        loop {
+            std::thread::sleep(std::time::Duration::from_millis(200));
+            let Some(cpu) = process_cpu_secs() else { return };
+            let (n, text) = match CURRENT.lock() {
+                Ok(c) => (c.0, c.1.clone()),
+                Err(_) => return,
+            };
+            if n != last {
+                last = n;
+                cpu0 = cpu;
+            } else if cpu - cpu0 > CPU_LIMIT_SECS {
+                let _ = std::fs::write(&hang_file, text);
+                std::process::exit(3);
+            }
+        }
+    });
+}
+
+/// One input in a process of its own (used to confirm a hang or a crash): exit status 0 answered,
+/// 1 panicked, 3 no answer within the CPU limit.
+pub fn one(input: &str, hang_file: &str) -> i32 {
+    spawn_monitor(hang_file.to_string());
+    match exercise(input) {
+        Ok(_) => 0,
+        Err(_) => 1,
+    }
+}
+
 /// Run every stage on `input`. Ok(class) or Err(what crashed).
 pub fn exercise(input: &str) -> Result<(&'static str, bool), String> {
+    note_current(input);
     let r = catch(|| parse(input)).map_err(|p| format!("parse panicked: {p}"))?;
     match r {
         Err(e) => {
@@ -153,7 +205,28 @@ pub fn replay(case: &Value) -> Result<Verdict, String> {
             Err(e) => Verdict::Fail(e),
         });
     }
-    Ok(judge(case["input"].as_str().ok_or("no input")?))
+    let input = case["input"].as_str().ok_or("no input")?.to_string();
+    // on a thread of its own, under the same CPU limit (a hanging call cannot be stopped: the
+    // verdict is returned and the process ends with the thread still running)
+    let (tx, rx) = std::sync::mpsc::channel();
+    let text = input.clone();
+    let cpu0 = process_cpu_secs().unwrap_or(0.0);
+    std::thread::Builder::new().stack_size(256 << 20).spawn(move || { let _ = tx.send(judge(&text)); }).map_err(|e| e.to_string())?;
+    loop {
+        match rx.recv_timeout(std::time::Duration::from_millis(200)) {
+            Ok(v) => return Ok(v),
+            Err(std::sync::mpsc::RecvTimeoutError::Disconnected) => return Ok(Verdict::Fail(format!("input {:?}: the thread handling it died", truncate(&input, 300)))),
+            Err(std::sync::mpsc::RecvTimeoutError::Timeout) => {
+                if process_cpu_secs().unwrap_or(0.0) - cpu0 > CPU_LIMIT_SECS {
+                    return Ok(Verdict::Fail(hang_message(&input)));
+                }
+            }
+        }
+    }
+}
+
+fn hang_message(input: &str) -> String {
+    format!("input {:?} ({} bytes): no answer after {CPU_LIMIT_SECS} s of CPU time (inputs of this size are answered in milliseconds): parse/compile/render does not terminate in any useful sense", truncate(input, 300), input.len())
 }
 
 fn case_json(s: &str) -> Value {
@@ -165,6 +238,8 @@ fn case_json(s: &str) -> Value {
 /// input about to run is written first (used to isolate an abort).
 pub fn worker(shard: usize, nshards: usize, seed: u64, tier: Tier, out: &str, trace: Option<&str>, only: Option<usize>) -> i32 {
     let texts = corpus::texts(seed, tier, shard, nshards);
+    spawn_monitor(format!("{out}.hang"));
+    let mut max_cpu = 0f64;
     let mut st = Stats::new();
     let mut nt: Vec<u8> = vec![];
     // the calls made so far on this thread (newest last): a failure that needs earlier calls is
@@ -202,7 +277,11 @@ pub fn worker(shard: usize, nshards: usize, seed: u64, tier: Tier, out: &str, tr
             let hk = stable_hash(&(i as u64, 0xC03u64));
             st.record(&hv, hk, true, || hcase);
         }
+        let c0 = if i % 16 == 0 || t.len() > 400 { process_cpu_secs() } else { None };
         let mut v = judge(t);
+        if let (Some(a), Some(b)) = (c0, process_cpu_secs()) {
+            max_cpu = max_cpu.max(b - a);
+        }
         remember(&mut recent, t);
         let mut fcase = case_json(t);
         if let Verdict::Fail(e) = &v {
@@ -225,6 +304,7 @@ pub fn worker(shard: usize, nshards: usize, seed: u64, tier: Tier, out: &str, tr
             st.samples.push(case_json(t));
         }
     }
+    st.extra.insert("max_input_cpu_s".into(), json!(max_cpu));
     let _ = std::fs::write(format!("{out}.nt"), nt);
     match std::fs::File::create(out).and_then(|mut f| f.write_all(serde_json::to_string(&stats_to_json(&st)).unwrap().as_bytes())) {
         Ok(()) => 0,
@@ -240,6 +320,7 @@ pub fn run(ctx: &Ctx) -> Report {
     let tag = format!("{}-{}", profile(), std::process::id());
     let total = std::sync::Mutex::new(Stats::new());
     let nt_all: std::sync::Mutex<HashSet<u64>> = std::sync::Mutex::new(HashSet::new());
+    let max_cpu = std::sync::Mutex::new(0f64);
     let next = std::sync::atomic::AtomicUsize::new(0);
     std::thread::scope(|sc| {
         for _ in 0..16 {
@@ -261,7 +342,15 @@ pub fn run(ctx: &Ctx) -> Report {
                 let mut st = Stats::new();
                 if ok {
                     match std::fs::read_to_string(&out).ok().and_then(|t| serde_json::from_str::<Value>(&t).ok()) {
-                        Some(v) => st = stats_from_json(&v),
+                        Some(v) => {
+                            st = stats_from_json(&v);
+                            if let Some(m) = st.extra.remove("max_input_cpu_s").and_then(|x| x.as_f64()) {
+                                let mut g = max_cpu.lock().unwrap();
+                                if m > *g {
+                                    *g = m;
+                                }
+                            }
+                        }
                         None => st.oracle_bugs.push(format!("worker {shard} produced no result")),
                     }
                     if let Ok(bytes) = std::fs::read(format!("{out}.nt")) {
@@ -270,6 +359,23 @@ pub fn run(ctx: &Ctx) -> Report {
                             set.insert(u64::from_le_bytes(ch.try_into().unwrap()));
                         }
                     }
+                } else if matches!(&status, Ok(s) if s.code() == Some(3)) && std::path::Path::new(&format!("{out}.hang")).exists() {
+                    // one input used more than the CPU limit: confirm it in a process of its own
+                    let hang = format!("{out}.hang");
+                    let input = std::fs::read_to_string(&hang).unwrap_or_default();
+                    let infile = format!("{out}.one");
+                    let _ = std::fs::write(&infile, &input);
+                    let _ = std::fs::remove_file(&hang);
+                    let again = std::process::Command::new(&exe).args(["c03-one", "--in", &infile, "--out", &hang]).stdout(std::process::Stdio::null()).stderr(std::process::Stdio::null()).status();
+                    st.evaluations += 1;
+                    if matches!(&again, Ok(s) if s.code() == Some(3)) {
+                        st.failures.push(Failure { case: case_json(&input), msg: hang_message(&input) });
+                    } else {
+                        st.oracle_bugs.push(format!("worker {shard} reported an input over the CPU limit, but alone it was answered (status {again:?}): {:?}", truncate(&input, 200)));
+                    }
+                    st.notes.push(format!("slice {shard} of the corpus was cut short by an input over the CPU limit"));
+                    let _ = std::fs::remove_file(&infile);
+                    let _ = std::fs::remove_file(&hang);
                 } else {
                     // the worker died (abort, stack overflow, kill): isolate the input with a traced re-run
                     let trace = format!("{scratch}/c03-{tag}-{shard}.trace");
@@ -299,6 +405,8 @@ pub fn run(ctx: &Ctx) -> Report {
     });
     let mut total = total.into_inner().unwrap();
     total.nt_set = nt_all.into_inner().unwrap();
+    total.extra.insert("max_input_cpu_s".into(), json!(max_cpu.into_inner().unwrap()));
+    total.extra.insert("cpu_limit_per_input_s".into(), json!(CPU_LIMIT_SECS));
     total.exhaustive_parts.push("every string of length 1..=3 over a 20-symbol alphabet after each of 41 keywords (bare, and quoted for -perm/-printf); numeric boundary strings after every numeric carrier; octal runs of 1..24 digits after -perm and '\\'".into());
     // coverage-guided part: replay of the committed corpus (quick), libFuzzer campaign (thorough)
     crate::fuzzrun::replay_corpus("total", &mut total);
@@ -307,7 +415,7 @@ pub fn run(ctx: &Ctx) -> Report {
     }
     Report {
         stats: total,
-        rule: "inputs within the stated bounds (UTF-8, <= 4 KiB, <= 64 of '(' and '!'): (1) grammar-aware texts over the whole vocabulary in layout/argument-spelling variants; (2) every prefix and every single-character mutation (delete, duplicate, replace by each of 24 special characters) of a sample of those; (3) every argument string of length <= 3 over a 20-symbol alphabet after each argument-taking keyword; (4) numeric boundary strings and long octal runs; (5) the member/non-member texts of C05 and random format strings; nesting at the bound; (6) before every eighth input, a history of calls on the worker's own thread: 18 fixed inputs that are rejected by the lexer, rejected by the grammar with parentheses open, or accepted with a warning, mixed with four texts of the slice in a seed-dependent order - each call of the history is judged like any other input, and a failure that needs earlier calls is reported as the shortest history that reproduces it on a fresh thread (replay kind \"history\"). Oracle, per input, in a child process, in the dev and in the release build: parse returns; on Err, Display and Debug of the error return; on Ok, compile returns; on Ok, scheme(\"/\"), scheme(hostile path) and io_map() return. A panic, abort or fatal signal is a failure; a watchdog expiry is inconclusive (exit 2). Non-trivial: parsing got past the first token (Ok, or an error that names a keyword). Distinct: by input text.".into(),
+        rule: "inputs within the stated bounds (UTF-8, <= 4 KiB, <= 64 of '(' and '!'): (1) grammar-aware texts over the whole vocabulary in layout/argument-spelling variants; (2) every prefix and every single-character mutation (delete, duplicate, replace by each of 24 special characters) of a sample of those; (3) every argument string of length <= 3 over a 20-symbol alphabet after each argument-taking keyword; (4) numeric boundary strings and long octal runs; (5) the member/non-member texts of C05 and random format strings; nesting at the bound; (6) before every eighth input, a history of calls on the worker's own thread: 18 fixed inputs that are rejected by the lexer, rejected by the grammar with parentheses open, or accepted with a warning, mixed with four texts of the slice in a seed-dependent order - each call of the history is judged like any other input, and a failure that needs earlier calls is reported as the shortest history that reproduces it on a fresh thread (replay kind \"history\"). Oracle, per input, in a child process, in the dev and in the release build: parse returns; on Err, Display and Debug of the error return; on Ok, compile returns; on Ok, scheme(\"/\"), scheme(hostile path) and io_map() return. A panic, abort or fatal signal is a failure; so is an input that has no answer after 20 s of CPU time of its process (confirmed in a process of its own; the slowest input of the corpus takes `max_input_cpu_s`); expiry of the watchdog of the whole run is inconclusive (exit 2). Non-trivial: parsing got past the first token (Ok, or an error that names a keyword). Distinct: by input text.".into(),
         assumptions: vec!["deeper nesting than 64 and inputs beyond 4 KiB are outside the property as stated".into()],
         exhaustive: false,
     }
